@@ -171,16 +171,19 @@ def checkUsingKeys (keys : KeyMap) (now : Nat) : List Request → List Bool → 
     (if res then true else checkSigs r.server r.atTS r.strict keys now (supportedSigs r)) :: checkUsingKeys keys now rs ress
   | _, _ => []
 
-/-- "Hold the new keys and remove them from the request queue" for one answered entry -/
-def mergeStep (st : KeyMap × ReqMap) (e : KeyReq × KeyRes) : KeyMap × ReqMap :=
-  let (keysFetched, keyRequests) := st
+/-- "Hold the new keys and remove them from the request queue" for one answered entry; an entry taken over is
+    also noted in `keysToStore` (the keys that came from a fetcher, as opposed to the ones only read from the database) -/
+def mergeStep (st : KeyMap × ReqMap × KeyMap) (e : KeyReq × KeyRes) : KeyMap × ReqMap × KeyMap :=
+  let (keysFetched, keyRequests, keysToStore) := st
   let (req, res) := e
-  if !AList.contains req keyRequests && AList.contains req keysFetched then (keysFetched, keyRequests)
-  else (AList.insert req res keysFetched, AList.erase req keyRequests)
+  if !AList.contains req keyRequests && AList.contains req keysFetched then (keysFetched, keyRequests, keysToStore)
+  else (AList.insert req res keysFetched, AList.erase req keyRequests, AList.insert req res keysToStore)
 
 structure FetchState where
   keyRequests : ReqMap
   keysFetched : KeyMap
+  /-- the entries taken over from fetchers' answers -/
+  keysToStore : KeyMap := []
   /-- (index of the fetcher, what it was asked), in call order -/
   calls : List (Nat × ReqMap)
 
@@ -196,8 +199,8 @@ def fetchLoop : List (Nat × FetchScript) → FetchState → FetchState
       | some fetched =>
         if fetched.isEmpty then fetchLoop rest st                      -- continue
         else
-          let (kf, kr) := fetched.foldl mergeStep (st.keysFetched, st.keyRequests)
-          fetchLoop rest { st with keysFetched := kf, keyRequests := kr }
+          let (kf, kr, ks) := fetched.foldl mergeStep (st.keysFetched, st.keyRequests, st.keysToStore)
+          fetchLoop rest { st with keysFetched := kf, keyRequests := kr, keysToStore := ks }
 
 def enumFrom {α} : Nat → List α → List (Nat × α)
   | _, [] => []
@@ -231,9 +234,10 @@ def verifyJSONs (reqs : List Request) (db : FetchScript) (storeOk : Bool) (fetch
       let results1 := if early then checkUsingKeys keysFetched0 now reqs results0 else results0
       if early && results1.all id then (.ok results1, { dbAsked := some keyRequests0 })
       else
-        let st := fetchLoop (enumFrom 0 fetchers) { keyRequests := keyRequests1, keysFetched := keysFetched0, calls := [] }
+        let st := fetchLoop (enumFrom 0 fetchers) { keyRequests := keyRequests1, keysFetched := keysFetched0, keysToStore := [], calls := [] }
         let results2 := checkUsingKeys st.keysFetched now reqs results1
-        let tr : Trace := { dbAsked := some keyRequests0, fetcherCalls := st.calls, stored := some st.keysFetched }
+        -- `StoreKeys(ctx, keysToStore)`: what came from a fetcher, not what was read from the database
+        let tr : Trace := { dbAsked := some keyRequests0, fetcherCalls := st.calls, stored := some st.keysToStore }
         if !storeOk then (.error .store, tr) else (.ok results2, tr)
 
 /-! ## keys.go -/
@@ -543,7 +547,16 @@ def judge (reqs : List Request) (db : FetchScript) (storeOk : Bool) (fetchers : 
               | none => false
             else true)
         | _ => true)
+      -- … and ONLY what it fetched: every stored entry is an entry of the answer of a fetcher that was consulted
+      -- (an entry the call merely READ from the database is not written back: a concurrent call may have refreshed it)
+      let onlyFetched := match tr.stored with
+        | none => true
+        | some sm => sm.all (fun e => tr.fetcherCalls.any (fun c =>
+            match nth? fetchers c.1 with
+            | some (some m) => m.contains e
+            | _ => false))
       if !fetchedOK then some (false, "a key obtained from a fetcher was not stored")
+      else if !onlyFetched then some (false, "a key that no fetcher supplied (read from the database) was stored")
       else if idx.any (fun i => match nth? reqs i, nth? bits i with
                 | some r, some b => !b && literalDB r dbm now
                 | _, _ => false) then
